@@ -801,3 +801,39 @@ def setdefault_before_append(ck, rule, fi):
                        A.unparse(tgt), sorted(
                            a for a in g if X in str(a))), s)
     return n
+
+
+def target_not_rebound_by_truthiness(ck, rule, quals):
+    """G11: a helper that merges into its first parameter in place and hands
+    it back may replace a missing target (``is None``) by a new dictionary,
+    never a merely EMPTY one: ``dct = dct or {}`` / ``if not dct: dct = {}``
+    make the recursion merge into a throw-away dictionary whenever the
+    existing target is an empty dict, and what was merged is lost."""
+    n = 0
+    for qual, module in quals:
+        fi = ck.fn_opt(qual, module)
+        if fi is None:
+            continue
+        ps = A.params_of(fi.node)
+        if not ps:
+            continue
+        cfg = cfg_of(fi.node)
+        for p in ps[:1]:
+            for s in A.walk_no_nested(fi.node):
+                if not (isinstance(s, ast.Assign) and A.is_name(
+                        s.targets[0], p)):
+                    continue
+                n += 1
+                v = s.value
+                by_or = isinstance(v, ast.BoolOp) and isinstance(
+                    v.op, ast.Or) and A.is_name(v.values[0], p)
+                g = cfg.guards(cfg.node(s))
+                by_if = ('falsy', p) in g
+                ck.require(not by_or and not by_if, rule, fi, s,
+                           '`%s` is replaced only when it is None' % p,
+                           '%s replaces its argument `%s` by a new object '
+                           'whenever it is falsy (%s): an existing but '
+                           'empty dictionary is swapped for a throw-away '
+                           'one, and what the (recursive) merge puts there '
+                           'is lost' % (fi.qual, p, A.short(s, 40)), s)
+    return n
